@@ -85,6 +85,7 @@ structure Screen where
   curH : Nat := 7
   curXhot : Nat := 3
   curYhot : Nat := 3
+  curEmpty : Bool := false        -- 1x1 cursor with an empty mask: rfbSendCursorShape treats it as "no cursor"
   cursorX : Int := 0
   cursorY : Int := 0
   pointerClient : Option Nat := none
@@ -251,7 +252,7 @@ def cursorEnc (k : Caps) : Nat := if k.richCursor then rfbEncodingRichCursor els
 /-- the pseudo-rectangles, in the order rfbSendFramebufferUpdate emits them -/
 def pseudoPats (s : Screen) (c : Conn) (f : PseudoFlags) : List RPat :=
   (if f.shape then
-    [if cursorFits c.caps.richCursor c.bpp s.curW s.curH then
+    [if cursorFits c.caps.richCursor c.bpp s.curW s.curH && !s.curEmpty then
        RPat.cursor (cursorEnc c.caps) s.curXhot s.curYhot s.curW s.curH
      else RPat.cursor (cursorEnc c.caps) 0 0 0 0] else []) ++
   (if f.pos then [RPat.pseudo rfbEncodingPointerPos] else []) ++
